@@ -320,6 +320,8 @@ class LayoutEval:
                 return self.ctor(f[1], args, kwargs, node)
             if f[0] == "class":
                 return self.instantiate(f[1], f[2], args, kwargs, node)
+            if f[0] == "ext":
+                return ("extcall", f[1], tuple(repr(a) for a in args))
         raise AnalysisError(f"unmodelled call in layout: {norm(node)[:120]} ({mod.name})")
 
     @staticmethod
